@@ -1,8 +1,9 @@
 (* C05 — Stream always terminates and leaves nothing behind; Error() never blocks.
    Statements about the protocol model Model/Conn.v, over ALL schedules (`reachable c s` = any label
    sequence from init; no bound on packets or steps).  c : cfg selects the pinned code (cfg_pinned) or the
-   planned repairs (fix_d9, fix_d10).  Theorems without a premise on c hold for every cfg, the pinned code
-   included.  Only statements closed by `exact`, non-vacuity Examples and Print Assumptions. *)
+   repairs (fix_d9, fix_d10, and fix_k2 of C06 — cfg_fixed2 is the current tree).  Theorems without a premise
+   on c hold for every cfg, the pinned code included; none of them depends on fix_k2 (the K2 repair changes
+   what Error() returns, not whether anything terminates).  Only statements closed by `exact`, non-vacuity Examples and Print Assumptions. *)
 From GB Require Import Base.Prelude Model.Conn Model.ConnExplore Spec.ConnSeq.
 From GB Require Import Proofs.ConnInv Proofs.ConnStructure Proofs.ConnProofs Proofs.ConnProofs3.
 Open Scope nat_scope.
@@ -168,6 +169,11 @@ Proof. vm_compute. reflexivity. Qed.
 Example C05_explore_d9_fixed :
   option_map (fun p => map code (fst p))
     (outcomes (Sc cfg_fixed [true; true; false] THang [true; false] KNever false false None) 5000)
+  = Some [[1; 0; 0; 0; 0]; [1; 0; 0; 0; 1]; [1; 2; 0; 0; 1]].
+Proof. vm_compute. reflexivity. Qed.
+Example C05_explore_d9_fixed2 :
+  option_map (fun p => map code (fst p))
+    (outcomes (Sc cfg_fixed2 [true; true; false] THang [true; false] KNever false false None) 5000)
   = Some [[1; 0; 0; 0; 0]; [1; 0; 0; 0; 1]; [1; 2; 0; 0; 1]].
 Proof. vm_compute. reflexivity. Qed.
 Example C05_explore_d10 :
